@@ -72,7 +72,10 @@ func Exists(lo, hi int, p func(i int) bool) bool {
 
 // CallSite marks, inside a generated contract harness, the call of the
 // function under contract (the next static call instruction).
-func CallSite() {}
+func CallSite() { Called = true }
+
+// Called tells (natively) whether the harness has reached the call of the function under contract.
+var Called bool
 
 // Havoc* return an arbitrary value (symbolically: fresh; natively: zero —
 // harnesses that use them are replayed with model-provided inputs instead).
